@@ -6,6 +6,7 @@ import (
 	"bufio"
 	"fmt"
 	"io"
+	"os"
 	"os/exec"
 	"strconv"
 	"strings"
@@ -30,18 +31,25 @@ type Solver struct {
 	decls   *declSet
 	level   int
 	// statistics
-	Queries   int
-	Definite  int
-	Unknowns  int
-	Retried   int
-	Errors    int
-	SolveTime time.Duration
-	log       io.Writer
-	timeoutMs int
-	lastErr   string
+	Queries     int
+	Definite    int
+	Unknowns    int
+	Retried     int
+	Restarts    int
+	Rlimit      int
+	oneShotMode bool
+	Errors      int
+	SolveTime   time.Duration
+	log         io.Writer
+	timeoutMs   int
+	lastErr     string
 }
 
 func NewSolver(backend string, timeoutMs int) (*Solver, error) {
+	return NewSolverOpts(backend, timeoutMs, 0, false)
+}
+
+func NewSolverOpts(backend string, timeoutMs int, rlimit int, oneShot bool) (*Solver, error) {
 	var cmd *exec.Cmd
 	switch backend {
 	case "", "z3":
@@ -68,15 +76,45 @@ func NewSolver(backend string, timeoutMs int) (*Solver, error) {
 	if err := cmd.Start(); err != nil {
 		return nil, err
 	}
-	s := &Solver{backend: backend, cmd: cmd, in: in, out: bufio.NewReaderSize(out, 1<<20), decls: newDeclSet(), timeoutMs: timeoutMs}
+	s := &Solver{backend: backend, cmd: cmd, in: in, out: bufio.NewReaderSize(out, 1<<20), decls: newDeclSet(), timeoutMs: timeoutMs, Rlimit: rlimit, oneShotMode: oneShot}
+	if d := os.Getenv("GOSYM_SOLVERLOG"); d != "" && !oneShot {
+		f, _ := os.CreateTemp(d, "z3log-*.smt2")
+		s.log = f
+	}
 	s.send("(set-option :global-declarations true)")
 	if strings.HasPrefix(backend, "z3") {
-		s.send(fmt.Sprintf("(set-option :timeout %d)", timeoutMs))
+		s.sendLimits()
 		s.send("(set-option :produce-models true)")
 	} else {
 		s.send("(set-logic ALL)")
 	}
 	return s, nil
+}
+
+// sendLimits: the incremental solver is bounded by a deterministic resource limit (z3's
+// timer-based :timeout can cancel the *next* command - "push canceled" - and corrupt the
+// assertion stack); the one-shot solver additionally carries a wall-clock safety net.
+func (s *Solver) sendLimits() {
+	// The incremental solver runs without z3-side limits: both :timeout and :rlimit leave
+	// z3 4.8.12 in a cancelled state that fails the *next* command ("push canceled") and
+	// corrupts the assertion stack. Hard (arithmetic) queries are routed to the one-shot
+	// solver instead, which is limited by :timeout and simply restarted after an error; a
+	// Go-side watchdog kills an incremental check that exceeds watchdogS seconds.
+	if s.oneShotMode {
+		s.send(fmt.Sprintf("(set-option :timeout %d)", s.timeoutMs))
+	}
+}
+
+// restart respawns the solver process (one-shot solvers only: no stack to rebuild).
+func (s *Solver) restart() error {
+	s.Close()
+	n, err := NewSolverOpts(s.backend, s.timeoutMs, s.Rlimit, s.oneShotMode)
+	if err != nil {
+		return err
+	}
+	n.Queries, n.Definite, n.Unknowns, n.Retried, n.SolveTime, n.Restarts = s.Queries, s.Definite, s.Unknowns, s.Retried, s.SolveTime, s.Restarts+1
+	*s = *n
+	return nil
 }
 
 func (s *Solver) Close() {
@@ -130,7 +168,15 @@ func (s *Solver) Check() Result {
 	s.Queries++
 	t0 := time.Now()
 	s.send("(check-sat)")
+	var wd *time.Timer
+	if !s.oneShotMode {
+		proc := s.cmd.Process
+		wd = time.AfterFunc(120*time.Second, func() { proc.Kill() })
+	}
 	r := s.readResult()
+	if wd != nil {
+		wd.Stop()
+	}
 	s.SolveTime += time.Since(t0)
 	if r == Unknown {
 		s.Unknowns++
@@ -150,6 +196,16 @@ func (s *Solver) CheckWith(extra *Term) Result {
 	r := s.Check()
 	s.Pop(1)
 	return r
+}
+
+// resync: after a resource/time-limited check z3 4.8.12 leaves its cancel flag set and
+// fails the next command ("push canceled"); a trivially unsat check clears the flag.
+func (s *Solver) resync(r Result) {
+	if r != Unknown || !strings.HasPrefix(s.backend, "z3") || s.oneShotMode || s.Errors > 0 {
+		return
+	}
+	s.send("(check-sat-assuming (false))")
+	s.readResult()
 }
 
 func (s *Solver) readResult() Result {
@@ -173,6 +229,9 @@ func (s *Solver) readResult() Result {
 		case strings.HasPrefix(line, "(error"):
 			s.Errors++
 			s.lastErr = line
+			if os.Getenv("GOSYM_DEBUG") != "" {
+				fmt.Fprintln(os.Stderr, "SOLVER-ERROR:", line)
+			}
 			// keep reading: a result line still follows check-sat
 		case line == "":
 		default:
@@ -403,7 +462,7 @@ func (s *Solver) OneShot(terms []*Term, names []string, sorts []Sort) (Result, m
 	t0 := time.Now()
 	s.send("(reset)")
 	if strings.HasPrefix(s.backend, "z3") {
-		s.send(fmt.Sprintf("(set-option :timeout %d)", s.timeoutMs))
+		s.sendLimits()
 		s.send("(set-option :produce-models true)")
 	} else {
 		s.send("(set-logic ALL)")
@@ -436,6 +495,11 @@ func (s *Solver) OneShot(terms []*Term, names []string, sorts []Sort) (Result, m
 		}
 	}
 	s.SolveTime += time.Since(t0)
+	if s.Errors > 0 {
+		// a timer-cancelled command or similar: this query is unknown, the process is replaced
+		r, model = Unknown, nil
+		_ = s.restart()
+	}
 	if r == Unknown {
 		s.Unknowns++
 	} else {
